@@ -167,7 +167,9 @@ def probe_quirks(bdir, wd):
     q2 = r["warn"] > 0
     r = run_real(bdir, wd, W_EXPLGRAN, W_EXPLGRAN.argv())
     q3 = r["out"] is not None and len(r["out"]) == 16
-    return "".join("1" if x else "0" for x in (q0, q1, q2, q3))
+    r = run_real(bdir, wd, W_CREATOR, W_CREATOR.argv())
+    q4 = r["status"] == 0
+    return "".join("1" if x else "0" for x in (q0, q1, q2, q3, q4))
 
 
 # ---------------------------------------------------------------- generator
@@ -347,7 +349,7 @@ def classify(kv, quirks):
     cands = []
     if "filter" in cls and quirks[0] == "0":
         cands.append(("filter-uses-record-header", {"bytes", "length", "nothing-selected-not-rejected", "exit-status", "no-output", "empty-window-not-rejected", "overlap-false-warning", "overlap-not-warned", "header"}))
-    if "emptycreator" in cls:
+    if "emptycreator" in cls and len(quirks) > 4 and quirks[4] == "0":
         cands.append(("empty-creator-rejected", {"wellformed-file-rejected"}))
     if "unaligned" in cls and quirks[1] == "0":
         cands.append(("lane-unaligned", {"bytes", "length"}))
